@@ -3,7 +3,7 @@ import os, re, subprocess, time, shutil, hashlib
 
 VERIF = os.path.dirname(os.path.dirname(os.path.dirname(os.path.abspath(__file__))))
 SPEC = os.path.join(VERIF, "spec")
-OUT = os.path.join(VERIF, "out")
+OUT = os.environ.get("VERIF_OUT") or os.path.join(VERIF, "out")
 CP = "/opt/veriftools/tla/tla2tools.jar:/opt/veriftools/tla/CommunityModules-deps.jar"
 JAVA_OPTS = ["-Xms1g", "-Xmx12g", "-XX:+UseSerialGC"]
 
